@@ -356,7 +356,11 @@ def r5(fx):
              ('a list of parts with own modes / encodings', ['A', ('B', N), ('C', None, 'utf-8'), ('D', B, 'latin-1'), ('E',), 7], md['alphanumeric'], 'cp1252',
               [('A', md['alphanumeric'], 'cp1252'), ('B', N, 'cp1252'), ('C', md['alphanumeric'], 'utf-8'), ('D', B, 'latin-1'), ('E', md['alphanumeric'], 'cp1252'),
                (7, md['alphanumeric'], 'cp1252')]),
-             ('a tuple of strings', ('x', 'y', 'z'), None, None, [('x', None, None), ('y', None, None), ('z', None, None)])]
+             ('a tuple of strings', ('x', 'y', 'z'), None, None, [('x', None, None), ('y', None, None), ('z', None, None)]),
+             ('plain parts after parts with their own mode / encoding (nothing carries over)', [('A', None, 'utf-8'), 'B', ('C', N), 'D', ('E', B, 'latin-1'), 'F'], None, None,
+              [('A', None, 'utf-8'), ('B', None, None), ('C', N, None), ('D', None, None), ('E', B, 'latin-1'), ('F', None, None)]),
+             ('the same with global mode and encoding', [('A', N, 'utf-8'), 'B', ('C', None, None), 8], B, 'cp1252',
+              [('A', N, 'utf-8'), ('B', B, 'cp1252'), ('C', B, 'cp1252'), (8, B, 'cp1252')])]
     for title, content, mode, enc, want in cases:
         log.clear()
         res = pdf(content, mode, enc)
